@@ -25,6 +25,7 @@ type PropConfig struct {
 	Functions   []string `json:"functions"`
 	Lemmas      []string `json:"lemmas"`
 	Schema      []string `json:"schema"`
+	NoFailDecode []string `json:"nofail_decode"`
 	NotDecided  []string `json:"not_decided_clauses"`
 	Assumes     []string `json:"assumes"`
 	Note        string   `json:"note"`
@@ -319,6 +320,9 @@ func runCheck(prop, tier string, seed int) int {
 	frs = append(frs, verifyLemmas(P, L, pc.Lemmas, solveOpts{timeoutS: timeout, seed: seed, workDir: work})...)
 	if len(pc.Schema) > 0 {
 		frs = append(frs, checkSchema(P, pc.Schema)...)
+	}
+	if len(pc.NoFailDecode) > 0 {
+		frs = append(frs, checkNoFailDecode(P, pc.NoFailDecode)...)
 	}
 	groups := groupObligations(frs)
 	var ledger map[string][]string
@@ -779,6 +783,9 @@ func cmdLedger(args []string) {
 		frs = append(frs, verifyLemmas(P, L, pc.Lemmas, solveOpts{timeoutS: 10})...)
 		if len(pc.Schema) > 0 {
 			frs = append(frs, checkSchema(P, pc.Schema)...)
+		}
+		if len(pc.NoFailDecode) > 0 {
+			frs = append(frs, checkNoFailDecode(P, pc.NoFailDecode)...)
 		}
 		var okIDs []string
 		bad := 0
